@@ -400,6 +400,7 @@ impl Module {
         }
 
         let out = cx.wasm_module.finish();
+        self.customs = customs;
         log::debug!("emission finished");
 
         // let mut validator = Validator::new();
